@@ -60,7 +60,7 @@ where
 {
     let mut rng = Rng::new(cfg.wseed);
     let rounds = rng.range(2, 5) as usize;
-    let per_round = rng.range(1, 3) as usize;
+    let per_round = rng.range(1, if p.max_threads > 4 { 8 } else { 3 }) as usize;
     let child_ops = rng.range(3, 9) as usize;
     let long_ops = rounds * per_round * child_ops / 2 + 6;
     let nc = rng.range(1, p.max_conts as u64) as usize;
